@@ -180,6 +180,15 @@ def apply_foreign(fmt, text, extents, spec):
                 tail = tail[:-1]
             text = text[:a] + tail
             new_ext[-1] = (a, a + len(tail))
+    if kind == 'empty_record' and new_ext:
+        # a delimiter line duplicated between two records: an empty record, which readers must skip and indices must count
+        k = spec.get('after', 0) % len(new_ext)
+        a, b = new_ext[k]
+        ins = '$$$$\n' if fmt in ('sdf', 'esdf') else ('$MFMT\n' if fmt in ('rdf', 'erdf') else '')
+        if ins and (fmt in ('sdf', 'esdf') or k + 1 < len(new_ext)):
+            pos = b if fmt in ('sdf', 'esdf') else new_ext[k + 1][0]
+            text = text[:pos] + ins + text[pos:]
+            new_ext = [(x, y) if y <= pos else (x + len(ins), y + len(ins)) for x, y in new_ext]
     if kind == 'crlf':
         # every line feed becomes CR LF: offsets move by the number of line feeds in front of them
         import bisect
@@ -1003,12 +1012,12 @@ def generate(seed):
     trace['write'] = wp
     mode = cfg['mode']
     if mode in ('clean', 'indexed') and s.random() < 0.3:
-        k = s.choice(['v3000wrap', 'v3000wrap', 'no_final_delimiter', 'crlf'])
-        if (k == 'v3000wrap' and fmt in ('esdf', 'erdf')) or \
+        k = s.choice(['v3000wrap', 'v3000wrap', 'no_final_delimiter', 'crlf', 'empty_record', 'empty_record'])
+        if (k == 'v3000wrap' and fmt in ('esdf', 'erdf')) or (k == 'empty_record' and fmt != 'mrv') or \
                 (k == 'no_final_delimiter' and fmt in ('sdf', 'esdf') and mode == 'clean') or \
                 (k == 'crlf' and fmt != 'mrv'):
             trace['foreign'] = {'kind': k, 'width': s.choice([20, 30, 40, 60, 78]), 'blank_first': s.random() < 0.5,
-                                'no_newline': s.random() < 0.5}
+                                'no_newline': s.random() < 0.5, 'after': s.randrange(8)}
     if mode == 'clean' and fmt != 'mrv' and s.random() < 0.3 and not trace.get('foreign'):
         trace['append'] = [gen_record_spec(w, cfg, FORMATS[fmt]['rxn']) for _ in range(s.choice([1, 2]))]
     reads = []
@@ -1074,7 +1083,7 @@ def generate(seed):
     if mode == 'indexed':
         ops = []
         for _ in range(s.choice([3, 5, 8, 12])):
-            k = s.choice(['get', 'get', 'get', 'slice', 'seek', 'seek', 'current', 'reset', 'reopen', 'iterate'])
+            k = s.choice(['get', 'get', 'get', 'slice', 'slice', 'seek', 'seek', 'current', 'reset', 'reopen', 'iterate'])
             op = {'op': k, 'i': s.randrange(64)}
             if k == 'get':
                 op['neg'] = s.random() < 0.3
